@@ -72,8 +72,13 @@ def stores_affecting(b, path):
     return out
 
 
-def classify(v, npath, lterm_pred, is_n=True):
+def classify(v, npath, lterm_pred, is_n=True, remaining=None):
+    """remaining: predicate recognising `L - N`; a clamp `min(n, x)` is a clamp only if x is the remaining length."""
     v = strip_casts(v)
+
+    def clamp_ok(y):
+        others = [a for a in core(y)[2] if core(a)[:2] != ("param", 1)]
+        return remaining is None or (len(others) == 1 and remaining(others[0]))
     if m(Bin("Add", SelfField(*npath), Const(1)), v):
         return "+1"
     if m(Bin("Sub", SelfField(*npath), Const(1)), v):
@@ -86,11 +91,11 @@ def classify(v, npath, lterm_pred, is_n=True):
                 return "+n+1"
         for x, y in ((v[2], v[3]), (v[3], v[2])):
             if self_path(x) == npath and core(y)[0] == "call" and is_min_name(core(y)[1]) and any(core(a)[:2] == ("param", 1) for a in core(y)[2]):
-                return "clamp+"
+                return "clamp+" if clamp_ok(y) else "clamp+(not by the remaining length: %s)" % tstr(core(y))[:50]
     if v[0] == "bin" and v[1] == "Sub" and self_path(v[2]) == npath:
         y = core(v[3])
         if y[0] == "call" and is_min_name(y[1]) and any(core(a)[:2] == ("param", 1) for a in y[2]):
-            return "clamp-"
+            return "clamp-" if clamp_ok(y) else "clamp-(not by the remaining length: %s)" % tstr(y)[:50]
     return "other(%s)" % tstr(v)[:50]
 
 
@@ -133,7 +138,10 @@ def check_method(ctx, F, ty, meth, fn, npath, lpath, lterm_pred, tag):
     O = stores_affecting(b, other) if other is not None else []
     rv = return_blocks_by_variant(b)
     loops = b.loop_blocks()
-    cls = [(bi, classify(v, counter, lterm_pred)) for bi, st, v in S]
+    def remaining(t):
+        t = core(t)
+        return t[0] == "bin" and t[1] == "Sub" and ((self_path(t[2]) == lpath) if lpath is not None else lterm_pred(t[2])) and self_path(t[3]) == npath
+    cls = [(bi, classify(v, counter, lterm_pred, remaining=remaining)) for bi, st, v in S]
     want = {"next": "+1", "next_back": "-1"}.get(meth)
     problems = []
     # callees taking &mut self must not move the counters (helpers such as next_run), except own next/next_back (delegation)
@@ -252,6 +260,9 @@ def check_config(ctx, F, tag, cfg):
                     continue
                 check_method(ctx, F, ty, meth, meths[meth], npath, lpath, lpred, tag)
                 ctx.count("iterator-methods-analysed" + tag)
+        # R8: an iterator built already exhausted (for an out-of-range start, or by an `empty_iter` constructor) starts with
+        # N == L, so that its exact length is 0
+        check_exhausted_constructions(ctx, F, ty, npath, lpath, lgetter, tag)
         # nobody else stores the counters
         adt = ty
         outside = []
@@ -311,6 +322,21 @@ def check_config(ctx, F, tag, cfg):
 
     # ---------------- R6 the two pending candidates of sparse_vector::Iter fall back on each other
     check_two_ended_candidates(ctx, F, tag)
+
+    # ---------------- R9 a run iterator's `limit` (set bits up to the end of its block) is taken for the block its `offset` is in
+    for fn in ("rl_vector::RLVector::iter_for_block", "rl_vector::RunIter::<'a>::advance_if"):
+        b = F.body(fn)
+        oa = [core(b.term_of_operand(t["args"][1])) for bi, t in b.calls() if callee_name(t) == "rl_vector::RLVector::ones_after"]
+        blocks_of_offset = []
+        for bi, si, st in b.stmts():
+            if st["s"] == "assign" and st["rv"]["r"] == "bin" and st["rv"]["op"].startswith("Mul"):
+                x, y = core(b.term_of_operand(st["rv"]["a"])), core(b.term_of_operand(st["rv"]["b"]))
+                for u, v in ((x, y), (y, x)):
+                    if v[0] == "const" and len(v) > 2 and str(v[2]).endswith("::BLOCK_SIZE"):
+                        blocks_of_offset.append(u)
+        ok = len(oa) == 1 and len(blocks_of_offset) >= 1 and all(x == oa[0] for x in blocks_of_offset)
+        ctx.ob("C10.R9.run-iter-limit-for-its-block", fn + tag, loc(b.raw["span"]), ok, "sibling-agreement",
+               "offset = B * BLOCK_SIZE with B = %s; limit = ones_after(%s)" % ([tstr(x)[:40] for x in blocks_of_offset], [tstr(x)[:40] for x in oa]))
 
     # ---------------- R7 an iterator handed on after a scan loop that consumed the item it stopped at
     # instances confirmed by reading: find_zero_run documents "(run rank, one_iter past the run)" -- its receivers read the item
@@ -475,3 +501,55 @@ def consumed_then_handed_on(F):
             if 0 in carried:
                 hits.append((b.name, loc(t["sp"])))
     return hits
+
+
+def check_exhausted_constructions(ctx, F, ty, npath, lpath, lgetter, tag):
+    def project_ops(b, st, path):
+        """Term of the aggregate's component `path` (field name, then tuple components)."""
+        ops = dict(zip(st["rv"]["fields"], st["rv"]["ops"]))
+        if path[0] not in ops:
+            return None
+        t = core(b.term_of_operand(ops[path[0]]))
+        for comp in path[1:]:
+            if t[0] == "tuple" and str(comp).isdigit() and int(comp) < len(t[1]):
+                t = core(t[1][int(comp)])
+            else:
+                return None
+        return t
+    n = 0
+    for b in F.all_bodies():
+        if "::tests::" in b.name:
+            continue
+        for bi, si, st in b.stmts():
+            if not (st["s"] == "assign" and st["rv"]["r"] == "agg" and st["rv"].get("def") == ty):
+                continue
+            exhausted = b.name.endswith("::empty_iter")
+            why = "empty_iter"
+            if not exhausted:
+                for f in facts_at(b, bi):
+                    if f[0] == "cmp" and f[1] in ("Ge", "Gt"):
+                        x, c = core(f[2]), core(f[3])
+                        if x[0] == "param" and x[1] >= 1 and c[0] == "call" and c[1].split("::")[-1] in ("count_ones", "count_zeros", "len") and len(c[2]) == 1 and core(c[2][0])[:2] == ("param", 0):
+                            exhausted = True
+                            why = "under `%s >= %s`" % (tstr(x), c[1].split("::")[-1])
+            if not exhausted:
+                continue
+            nt = project_ops(b, st, npath)
+            if lpath is not None:
+                lt = project_ops(b, st, lpath)
+            else:
+                ops = dict(zip(st["rv"]["fields"], st["rv"]["ops"]))
+                recv = core(b.term_of_operand(ops[lgetter[1][0]])) if lgetter[1] and lgetter[1][0] in ops else None
+                lt = ("getter", recv)
+            if nt is None or lt is None:
+                continue
+            n += 1
+            if lpath is not None:
+                ok = nt == lt
+            else:
+                # the same count getter, asked of the parent the iterator is built for (a parameter of the constructor)
+                ok = nt[0] == "call" and (nt[1] == lgetter[0] or nt[1].split("::")[-1] == lgetter[0].split("::")[-1]) and len(nt[2]) == 1 and \
+                    (core(nt[2][0]) == lt[1] or core(nt[2][0])[0] == "param")
+            ctx.ob("C10.R8.exhausted-construction-has-length-zero", "%s|%s%s" % (b.name, ty.split("::")[-1], tag), loc(st["sp"]), ok, "term-shape",
+                   "%s built %s with N = %s and L = %s" % (ty, why, tstr(nt)[:50], tstr(lt)[:50] if lpath is not None else "%s(%s)" % (lgetter[0].split("::")[-1], tstr(lt[1])[:30])))
+    ctx.count("exhausted-constructions" + tag, n)
